@@ -280,7 +280,13 @@ def c07_exprs(rnd, budget):
     iph = [CMP(o, F(f), b) for f in ("ip", "p") for o in ("Eq", "NotEq") for b in (C(S("10.0.0.1")), C(S("/a")), C(S("/a/B")), C(NN), C(I(1)))] + \
           [CMP(o, b, F(f)) for f in ("ip", "p") for o in ("Eq", "NotEq") for b in (C(S("10.0.0.1")), C(S("/a")))] + \
           [HELPER("field_equals", fs, ss) for fs in (["ip"], ["p"], ["ip", "s"], ["p", "m"]) for ss in (["10.0.0.1"], ["/a/b"], ["/A"], ["/a", "10.0.0.2"])]
-    groups = {"typed": typed, "ip_path": iph, "cmp": cmps, "bin": [CMP("Eq", b, C(I(2))) for b in bins] + bins, "call": calls, "chain": chains, "gen": gens, "l2cmp": l2, "neg": negs, "bool": bools, "not": nots, "helper": helpers, "gen2": gen2, "unsupported": unsup}
+    # display KINDS: a tuple display is a tuple and a list display is a list (equal elements, different kind)
+    elems = [(C(I(1)), C(I(100))), (C(S("a")), C(S("b"))), (C(S("Ab")),), (F("n"), F("s")), ()]
+    kinds = [CMP(o, mk1(*es), mk2(*es)) for o in ("Eq", "NotEq") for es in elems for mk1 in (LST, TUP) for mk2 in (LST, TUP)] + \
+            [CMP(o, F("l"), mk(*es)) for o in ("Eq", "NotEq") for es in elems for mk in (LST, TUP)] + \
+            [CMP(o, mk(*es), LST(mk1(*es), C(I(1)))) for o in ("In", "NotIn") for es in elems[:3] for mk in (LST, TUP) for mk1 in (LST, TUP)] + \
+            [CMP("Eq", BIN("Add", mk(*es), mk(*es)), mk2(*(es + es))) for es in elems[:3] for mk in (LST, TUP) for mk2 in (LST, TUP)]
+    groups = {"kinds": kinds, "typed": typed, "ip_path": iph, "cmp": cmps, "bin": [CMP("Eq", b, C(I(2))) for b in bins] + bins, "call": calls, "chain": chains, "gen": gens, "l2cmp": l2, "neg": negs, "bool": bools, "not": nots, "helper": helpers, "gen2": gen2, "unsupported": unsup}
     total = sum(len(g) for g in groups.values())
     out = []
     # groups of moderate size are ALWAYS taken completely (a sample of them once lost the only expressions that tell a
